@@ -47,7 +47,7 @@ var (
 	dataAttribute             = regexp.MustCompile("^data-.+")
 	dataAttributeXMLPrefix    = regexp.MustCompile("^xml")
 	dataAttributeInvalidChars = regexp.MustCompile(`[^-._0-9a-z\x{B7}\x{C0}-\x{D6}\x{D8}-\x{F6}\x{F8}-\x{37D}\x{37F}-\x{1FFF}\x{200C}\x{200D}\x{203F}\x{2040}\x{2070}-\x{218F}\x{2C00}-\x{2FEF}\x{3001}-\x{D7FF}\x{F900}-\x{FDCF}\x{FDF0}-\x{FFFD}\x{10000}-\x{EFFFF}]`)
-	cssUnicodeChar            = regexp.MustCompile(`\\[0-9a-f]{1,6}(?:\r\n|[ \t\n\f\r])?`)
+	cssUnicodeChar            = regexp.MustCompile(`\\(?:[0-9a-f]{1,6}(?:\r\n|[ \t\n\f\r])?|[^0-9a-f\n\r\f])`)
 	dataURIbase64Prefix       = regexp.MustCompile(`^data:[^,]*;base64,`)
 )
 
@@ -1340,27 +1340,52 @@ func isDataAttribute(val string) bool {
 
 func removeUnicode(value string) (decoded string, syntax bool) {
 	var substitutedValue strings.Builder
+	// inString is the quotation mark of the string the scan is in, if any:
+	// inside a string an escaped bracket or quote cannot change how the rest
+	// of the style is read
+	var inString byte
+	scan := func(plain string) {
+		for i := 0; i < len(plain); i++ {
+			switch c := plain[i]; {
+			case inString == 0 && (c == '"' || c == '\''):
+				inString = c
+			case c == inString:
+				inString = 0
+			}
+		}
+	}
 	// every escape is translated exactly once: what an escape translates to
-	// is never itself read as the start of another escape
+	// is never itself read as the start of another escape, and an escaped
+	// backslash does not start one either
 	currentLoc := cssUnicodeChar.FindStringIndex(value)
 	for currentLoc != nil {
+		scan(value[0:currentLoc[0]])
+		substitutedValue.WriteString(value[0:currentLoc[0]])
 
 		character := value[currentLoc[0]+1 : currentLoc[1]]
-		character = strings.TrimSpace(character)
-		// \UXXXXXXXX takes exactly 8 hex digits and covers every code point
-		// that the up to 6 digits of a CSS escape can express
-		character = "\\U" + strings.Repeat("0", 8-len(character)) + character
-		translatedChar, err := strconv.Unquote(`"` + character + `"`)
-		if err != nil || translatedChar == "\x00" {
-			// CSS parsers read surrogates, NUL and anything above U+10FFFF
-			// as the replacement character
-			translatedChar = "\uFFFD"
+		var translatedChar string
+		if c := character[0]; ('0' <= c && c <= '9') || ('a' <= c && c <= 'f') {
+			character = strings.TrimSpace(character)
+			// \UXXXXXXXX takes exactly 8 hex digits and covers every code point
+			// that the up to 6 digits of a CSS escape can express
+			character = "\\U" + strings.Repeat("0", 8-len(character)) + character
+			var err error
+			translatedChar, err = strconv.Unquote(`"` + character + `"`)
+			if err != nil || translatedChar == "\x00" {
+				// CSS parsers read surrogates, NUL and anything above U+10FFFF
+				// as the replacement character
+				translatedChar = "\uFFFD"
+			}
+			substitutedValue.WriteString(translatedChar)
+		} else {
+			// a backslash in front of any other character stands for that
+			// character; it is left as written for the matcher to see
+			translatedChar = character
+			substitutedValue.WriteString(value[currentLoc[0]:currentLoc[1]])
 		}
-		if strings.ContainsAny(translatedChar, "()[]{}\"'\\;") {
+		if inString == 0 && strings.ContainsAny(translatedChar, "()[]{}\"'\\;") {
 			syntax = true
 		}
-		substitutedValue.WriteString(value[0:currentLoc[0]])
-		substitutedValue.WriteString(translatedChar)
 		value = value[currentLoc[1]:]
 		currentLoc = cssUnicodeChar.FindStringIndex(value)
 	}
